@@ -140,9 +140,18 @@ def check(case):
         if e1 is not None:
             if seq._abs_stale and seq._rel_stale:
                 out.fail(f"unreadable-after-exception:{name}", tag)
-            else:
+                break
+            # the operation rejected the current content in the same way on the object and on its clean replica. If both
+            # still hold the same content the history goes on (on the replica-checked object); otherwise it ends here.
+            try:
+                same = _content(seq) == _content(rep) and O.canon_abs(build.replica(seq).abs) == O.canon_rel(build.replica(seq).rel)
+            except Exception:
+                same = False
+            out.label(f"raised:{name}")
+            if not same:
                 out.inconclusive = f"op-raised:{name}:{type(e1).__name__}"
-            break
+                break
+            continue
         if name == "scale_down":
             # halving odd tick values legitimately yields fractional ticks (the statement's tick model is integral):
             # such a history leaves the domain and ends here without a verdict
